@@ -203,11 +203,12 @@ type smSource struct {
 
 // smProblem describes one false mapping; known(p) == true means "recorded finding, keep checking the other mappings"
 type smProblem struct {
-	class            string // "name", "orig-space", ...
-	text             string
-	name             string // recorded name (class "name")
-	genTok, origTok  string
+	class             string // "name", "orig-space", ...
+	text              string
+	name              string // recorded name (class "name")
+	genTok, origTok   string
 	origLine, origCol int
+	source            string // "sources" entry of the mapping (class "name")
 }
 
 type smStats struct {
@@ -345,7 +346,7 @@ func smVerify(gen string, genCSS bool, m *smap, resolve func(string) (smSource, 
 		if sg.hasName {
 			st.nameChecked++
 			if ok != "word" || canon(ot) != canon(m.Names[sg.name]) {
-				p := smProblem{class: "name", text: fmt.Sprintf("recorded name %q is not the original identifier: %s", m.Names[sg.name], where), name: m.Names[sg.name], genTok: gt, origTok: ot, origLine: sg.line, origCol: sg.col}
+				p := smProblem{class: "name", text: fmt.Sprintf("recorded name %q is not the original identifier: %s", m.Names[sg.name], where), name: m.Names[sg.name], genTok: gt, origTok: ot, origLine: sg.line, origCol: sg.col, source: m.Sources[sg.src]}
 				if known != nil && known(p) {
 					continue
 				}
